@@ -1,6 +1,13 @@
 // Driver for C32: runs pkg/maintainer/spv getProofInfo (through the verif-tagged export
-// VerifGetProofInfo) against stub chains and prints the cases for the Coq model (Model/C32.v).
-// All numbers are rendered as Z; big.Int difficulties are decimal strings in the replay input.
+// VerifGetProofInfo) and whole proving rounds of spvMaintainer.proveTransactions (through
+// VerifProveTransactions) against stub chains and prints the cases for the Coq model
+// (Model/C32.v). All numbers are rendered as Z; big.Int difficulties are decimal strings in the
+// replay input.
+//
+// The stub chains are long-lived and hand out the SAME big.Int objects (factor, difficulties)
+// call after call; the driver overwrites them in place before every single call and checks after
+// every call / round that they still hold the value they were handed out with ("kept"). Rounds
+// (see round.go) run 2..6 transactions through ONE maintainer.
 package main
 
 import (
@@ -9,6 +16,7 @@ import (
 	"math/big"
 	"os"
 
+	golog "github.com/ipfs/go-log/v2"
 	"github.com/keep-network/keep-core/pkg/bitcoin"
 	"github.com/keep-network/keep-core/pkg/maintainer/btcdiff"
 	"github.com/keep-network/keep-core/pkg/maintainer/spv"
@@ -17,40 +25,51 @@ import (
 )
 
 type input struct {
-	Latest uint64 `json:"latest"`
-	Conf   uint64 `json:"conf"`
-	Factor string `json:"factor"`
-	Epoch  uint64 `json:"epoch"`
-	DCur   string `json:"dcur"`
-	DPrev  string `json:"dprev"`
-	Fail   string `json:"fail"` // "", latest, conf, factor, epoch, diff
+	Latest uint64 `json:"latest,omitempty"`
+	Conf   uint64 `json:"conf,omitempty"`
+	Factor string `json:"factor,omitempty"`
+	Epoch  uint64 `json:"epoch,omitempty"`
+	DCur   string `json:"dcur,omitempty"`
+	DPrev  string `json:"dprev,omitempty"`
+	Fail   string `json:"fail,omitempty"` // "", latest, conf, factor, epoch, diff
+	// set for a proving round (then the fields above are unused)
+	Round *roundIn `json:"round,omitempty"`
 }
 
 var errInjected = errors.New("injected failure")
 
 // ---- stub chains: only the methods getProofInfo calls are implemented; any other call hits
 // the embedded nil interface and panics (which the driver reports as an unexpected panic).
+// ONE set of stubs serves all single calls of a run: the big.Int objects they hand out are
+// allocated once and overwritten in place (Set) before every call, the way a caller reuses a buffer.
+type world struct {
+	in                  input
+	factor, dcur, dprev *big.Int // long-lived, handed out on every call
+}
+
+var single = &world{factor: new(big.Int), dcur: new(big.Int), dprev: new(big.Int)}
+
 type btcStub struct {
 	bitcoin.Chain
-	in input
+	w *world
 }
 
 func (b *btcStub) GetLatestBlockHeight() (uint, error) {
-	if b.in.Fail == "latest" {
+	if b.w.in.Fail == "latest" {
 		return 0, errInjected
 	}
-	return uint(b.in.Latest), nil
+	return uint(b.w.in.Latest), nil
 }
 func (b *btcStub) GetTransactionConfirmations(bitcoin.Hash) (uint, error) {
-	if b.in.Fail == "conf" {
+	if b.w.in.Fail == "conf" {
 		return 0, errInjected
 	}
-	return uint(b.in.Conf), nil
+	return uint(b.w.in.Conf), nil
 }
 
 type spvStub struct {
 	spv.Chain
-	in input
+	w *world
 }
 
 func bigOf(s string) *big.Int {
@@ -62,45 +81,59 @@ func bigOf(s string) *big.Int {
 }
 
 func (s *spvStub) TxProofDifficultyFactor() (*big.Int, error) {
-	if s.in.Fail == "factor" {
+	if s.w.in.Fail == "factor" {
 		return nil, errInjected
 	}
-	return bigOf(s.in.Factor), nil
+	return s.w.factor, nil
 }
 
 type diffStub struct {
 	btcdiff.Chain
-	in input
+	w *world
 }
 
 func (d *diffStub) CurrentEpoch() (uint64, error) {
-	if d.in.Fail == "epoch" {
+	if d.w.in.Fail == "epoch" {
 		return 0, errInjected
 	}
-	return d.in.Epoch, nil
+	return d.w.in.Epoch, nil
 }
 func (d *diffStub) GetCurrentAndPrevEpochDifficulty() (*big.Int, *big.Int, error) {
-	if d.in.Fail == "diff" {
+	if d.w.in.Fail == "diff" {
 		return nil, nil, errInjected
 	}
-	return bigOf(d.in.DCur), bigOf(d.in.DPrev), nil
+	return d.w.dcur, d.w.dprev, nil
 }
+
+var (
+	singleBtc  = &btcStub{w: single}
+	singleSpv  = &spvStub{w: single}
+	singleDiff = &diffStub{w: single}
+)
 
 type obs struct {
 	Kind   string `json:"kind"` // Info | Err | Panic
 	Within bool   `json:"within"`
 	Acc    uint64 `json:"acc"`
 	Req    uint64 `json:"req"`
+	// Kept: the factor and difficulty objects handed to the code still hold their values
+	Kept   bool   `json:"kept"`
 	Detail string `json:"detail,omitempty"`
 }
 
 func call(in input) (o obs) {
+	f, dc, dp := bigOf(in.Factor), bigOf(in.DCur), bigOf(in.DPrev)
+	single.in = in
+	single.factor.Set(f) // overwrite the long-lived objects in place
+	single.dcur.Set(dc)
+	single.dprev.Set(dp)
 	defer func() {
 		if r := recover(); r != nil {
 			o = obs{Kind: "Panic", Detail: fmt.Sprint(r)}
 		}
+		o.Kept = single.factor.Cmp(f) == 0 && single.dcur.Cmp(dc) == 0 && single.dprev.Cmp(dp) == 0
 	}()
-	w, acc, req, err := spv.VerifGetProofInfo(bitcoin.Hash{1}, &btcStub{in: in}, &spvStub{in: in}, &diffStub{in: in})
+	w, acc, req, err := spv.VerifGetProofInfo(bitcoin.Hash{1}, singleBtc, singleSpv, singleDiff)
 	if err != nil {
 		return obs{Kind: "Err", Detail: err.Error()}
 	}
@@ -123,9 +156,9 @@ func run(in input, em *lib.Emitter, id string) {
 	default:
 		out = "Panic"
 	}
-	coq := fmt.Sprintf("{| c_in := {| i_latest := %s; i_conf := %s; i_factor := %s; i_epoch := %s; i_dcur := %s; i_dprev := %s; i_fail := %s |}; c_out := %s |}",
+	coq := fmt.Sprintf("(Single {| i_latest := %s; i_conf := %s; i_factor := %s; i_epoch := %s; i_dcur := %s; i_dprev := %s; i_fail := %s |} %s %s)",
 		lib.ZU(in.Latest), lib.ZU(in.Conf), lib.ZBig(bigOf(in.Factor)), lib.ZU(in.Epoch),
-		lib.ZBig(bigOf(in.DCur)), lib.ZBig(bigOf(in.DPrev)), failCtor[in.Fail], out)
+		lib.ZBig(bigOf(in.DCur)), lib.ZBig(bigOf(in.DPrev)), failCtor[in.Fail], out, lib.Bool(o.Kept))
 
 	// labels (for the distribution, the non-triviality rule and known-findings matching)
 	dc, dp, f := bigOf(in.DCur), bigOf(in.DPrev), bigOf(in.Factor)
@@ -164,6 +197,9 @@ func run(in input, em *lib.Emitter, id string) {
 		em.Tally("span-diff-" + diff)
 	}
 	em.Tally("out-" + o.Kind)
+	if !o.Kept {
+		em.Tally("arguments-modified")
+	}
 	em.Case(lib.Case{
 		ID:         id,
 		Coq:        coq,
@@ -229,13 +265,18 @@ func diffPair(r *lib.Rng) (string, string) {
 func main() {
 	o := lib.ParseOpts()
 	em := lib.NewEmitter()
+	golog.SetAllLoggers(golog.LevelFatal) // proveTransactions logs every step
 	if o.Replay != "" {
 		var in input
 		if err := lib.LoadReplay(o.Replay, &in); err != nil {
 			fmt.Fprintln(os.Stderr, err)
 			os.Exit(2)
 		}
-		run(in, em, "replay")
+		if in.Round != nil {
+			runRound(*in.Round, em, "replay")
+		} else {
+			run(in, em, "replay")
+		}
 		em.Close("replay", nil)
 		return
 	}
@@ -340,6 +381,14 @@ func main() {
 		run(mk(start, conf, u(factor), epoch, dc, dp), em, fmt.Sprintf("rand-%05d", i))
 	}
 
+	// --- proving rounds on ONE maintainer (round.go): corpus, then generated
+	roundCorpus(em)
+	nRounds := o.Count(700, 8000)
+	r = rng.Fork("rounds")
+	for i := 0; i < nRounds; i++ {
+		runRound(genRound(r), em, fmt.Sprintf("round-%05d", i))
+	}
+
 	// --- malformed / out-of-domain stream (the property is silent, the model must still agree)
 	nBad := o.Count(300, 4000)
 	r = rng.Fork("malformed")
@@ -377,6 +426,8 @@ func main() {
 		run(in, em, fmt.Sprintf("bad-%05d", i))
 	}
 
-	em.Close("non-trivial = the proof range starts in the relay's previous epoch and ends in its current epoch, "+
-		"all guards hold and the two difficulties differ (the adjusted confirmation count is exercised)", nil)
+	em.Close("non-trivial = single call: the proof range starts in the relay's previous epoch and ends in its current epoch, "+
+		"all guards hold and the two difficulties differ (the adjusted confirmation count is exercised); "+
+		"round: no injected failure, all guards hold and an epoch-spanning transaction is followed by at least one "+
+		"later transaction whose proof range is in the relay's range", nil)
 }
